@@ -402,6 +402,24 @@ func runOkFlag(c *Ctx) {
 						}
 						// pure projections: their uses are the real uses
 						checkUses(r.(ssa.Value))
+					case *ssa.Call:
+						if flagTrueAt(u) {
+							continue
+						}
+						// handed, together with its flag, to a helper introduced since the baseline: the pair travels on
+						// (the helper's own uses of the value are then guarded by the flag it received, or not judged here)
+						if h := staticCallee(u); h != nil && isNewHelper(h) {
+							withFlag := false
+							for _, a := range u.Call.Args {
+								if isFlag(a) {
+									withFlag = true
+								}
+							}
+							if withFlag {
+								continue
+							}
+						}
+						bad, badWhy = r, "used"
 					default:
 						if flagTrueAt(r) {
 							continue
